@@ -164,7 +164,7 @@ func c19(c *Ctx) {
 		for _, id := range advStrings {
 			for _, cl := range []string{"", "c", `k"k`, "a b"} {
 				for _, pf := range []string{"-", "", "p", "<p>"} {
-					for _, fn := range []string{"oid", "ocls"} {
+					for _, fn := range []string{"oid", "ocls", "oclsl"} {
 						o := []string{fn, kind, hxu([]byte(id)), hxu([]byte(cl))}
 						if pf != "-" {
 							o = append(o, hxu([]byte(pf)))
@@ -265,6 +265,34 @@ func c19(c *Ctx) {
 			c.fail("C19/unsupported-accepted/"+hc.fn, "an argument of an unsupported type does not yield an error: "+clip(decodeReply(irs[0]), 80), map[string]string{"request": req})
 		} else if hc.obj == nil && !hasX && irs[0] == "err" {
 			c.fail("C19/supported-rejected/"+hc.fn, "supported arguments yield an error", map[string]string{"request": req})
+		}
+		// oracle for object references: joined with underscores, nothing without the method, escaped exactly once
+		if hc.obj != nil && strings.HasPrefix(irs[0], "ok") {
+			kind, id, cl := hc.obj[1], string(unhx(strings.TrimPrefix(hc.obj[2], "_"))), string(unhx(strings.TrimPrefix(hc.obj[3], "_")))
+			var parts []string
+			if len(hc.obj) > 4 {
+				parts = append(parts, string(unhx(strings.TrimPrefix(hc.obj[4], "_"))))
+			}
+			hasID, hasCls := kind == "both" || kind == "id", kind == "both" || kind == "cls"
+			want := ""
+			switch hc.fn {
+			case "oid":
+				if hasID {
+					if hasCls {
+						parts = append(parts, cl)
+					}
+					want = html.EscapeString(strings.Join(append(parts, id), "_"))
+				}
+			case "oclsl": // the class as it reaches the document
+				if hasCls {
+					want = html.EscapeString(strings.Join(append(parts, cl), "_"))
+				}
+			case "ocls":
+				want = "\x00skip"
+			}
+			if got := decodeReply(irs[0]); want != "\x00skip" && got != want {
+				c.fail("C19/contract/"+hc.fn, fmt.Sprintf("object reference: got %q, contract (joined with _, escaped exactly once) gives %q", clip(got, 80), clip(want, 80)), map[string]string{"request": req})
+			}
 		}
 		// oracle 3: the documented contract, computed independently of the model
 		if hc.obj == nil && !hasX && strings.HasPrefix(irs[0], "ok") {
